@@ -834,17 +834,19 @@ if __name__ == "__main__":
                      "share-table contract (Spec.C18.policyCovered, evaluated by the driver on every case; by "
                      "policyYear_covered_iff it holds iff every accident period is reached by a policy year of "
                      "policy_years_covered: some month between its first written month and its last written month + "
-                     "policy_length_months starts inside the period - with continuous issuance every first-of-month period "
-                     "start inside a policy year is reached, policyYear_reached_of_contains; that policy_years_covered tiles "
-                     "the accident periods is not proved) and one shape per field within a slice (UniformShapes; the code "
-                     "does not check it, numpy would broadcast)",
+                     "policy_length_months starts inside the period; with continuous issuance it is PROVED for every origin and "
+                     "policy length >= 1 on month-aligned accident periods from 1971 on (policyYear_covered_of_continuous, "
+                     "policyYear_conserves_continuous: the policy years of policy_years_covered tile the months from the "
+                     "first period start to the last period end); with point issuance it is the stated month condition) and "
+                     "one shape per field within a slice (UniformShapes; the code does not check it, numpy would broadcast)",
                      "disaggregation carries only the SELECTED fields (default DEFAULT_INTERPOLATION_FIELDS) of the cells "
                      "whose first sub-period is over at their evaluation date; other fields and unobservable cells are "
                      "dropped (disagg_drops_unselected, disagg_drops_unobservable); aggregate_disagg reproduces exactly that "
                      "restriction of the input",
-                     "currency_spec_bridge assumes no two cells land on one position after conversion; twin slices that "
-                     "differ only in the currency give a triangle with duplicate cells (currency_twin_slices; covered by "
-                     "currency_spec, which has no such hypothesis, and by the Spec evaluated on the implementation's output)",
+                     "currency_spec_bridge assumes no two cells land on one position after conversion; "
+                     "currency_spec_bridge_sorted drops that for sorted triangles with canonical metadata and distinct "
+                     "coordinates before the conversion (twin slices that differ only in the currency give a triangle with "
+                     "duplicate cells, currency_twin_slices; the stable sort keeps colliding cells in input order)",
                      "NaN-free values; scalars and 1-d arrays (rank >= 2 arrays and empty arrays are outside the model)",
                      "list (or absent) period weights (dict weights make the code raise, DESIGN §6)",
                      "disaggregate_experience on incremental triangles is not modelled (to_cumulative/to_incremental wrapper: C04)",
